@@ -573,8 +573,10 @@ class FuncLower:
     _in_loop_body = False
     _loop_names = ()
 
+    _loop_pos = {}
+
     def snapshot(self, lw):
-        return ('blk', tuple(('kw', C(n), lw.env.get(n, V(n))) for n in self._loop_names))
+        return ('blk', tuple(('kw', C(self._loop_pos.get(n, n)), lw.env.get(n, V(n) if n in self.params else C('<unbound>'))) for n in self._loop_names))
 
     def finish(self, v, lw):
         return v
@@ -642,10 +644,13 @@ class FuncLower:
                     and isinstance(n.func.value, ast.Name) and n.func.value.id not in assigned:
                 assigned.append(n.func.value.id)
         assigned = [a for a in assigned if a in self.locals]
-        init = tuple(('kw', C(n), lw.env.get(n, V(n))) for n in assigned)
+        # loop-carried variables are named positionally (insensitive to renaming of locals)
+        pos = {n: f"v{k}" for k, n in enumerate(assigned)}
+        self._loop_pos = pos
+        init = tuple(('kw', C(pos[n]), lw.env.get(n, V(n) if n in self.params else C('<unbound>'))) for n in assigned)
         bl = lw.clone()
         for n in assigned:
-            bl.env[n] = ('phi', idx, n)
+            bl.env[n] = ('phi', idx, pos[n])
         if isinstance(st, ast.For):
             head = ('for', bl.e(st.iter))
             bl2 = bl
@@ -658,7 +663,7 @@ class FuncLower:
         self._in_loop_body, self._loop_names = saved
         loopterm = ('loop', C(idx), C(head[0]), head[1], ('blk', init), body)
         for n in assigned:
-            lw.env[n] = ('loopout', idx, n)
+            lw.env[n] = ('loopout', idx, pos[n])
         return self.block(rest, lw, eff + (loopterm,))
 
 
